@@ -15,7 +15,7 @@ import sys
 
 from hypothesis import strategies as st
 
-from .. import base, gen
+from .. import audit, base, gen
 from ..base import Violation, HarnessError
 from . import common
 
@@ -120,6 +120,12 @@ def check_case(case, ctx):
                                "in which neighbours are listed"):
             ctx.record(case, False, classes + ["excluded:KF-NE-ORDER"])
             return
+        if case["config"].get("non_emitting_states"):
+            why = audit.ne_revisit_tie(m1, m2)
+            if why and ctx.known("KF-NE-ORDER", "the no-revisit filter of a non-emitting run follows the one chain kept among equally "
+                                                "probable predecessors; which one is kept depends on the listing order"):
+                ctx.record(case, False, classes + ["excluded:KF-NE-ORDER", "KF-NE-ORDER:revisit-filter-tie"])
+                return
         raise Violation("order.probability", f"listing order changes the best log-probability: {c1['lp']} vs {c2['lp']}")
     if c1["keys"] != c2["keys"]:
         classes.append("order:tie-different-path")
